@@ -22,8 +22,9 @@ one() {
     res=""
     for p in $props; do
       if echo " $ALL " | grep -q " $p "; then
-        out=$(STV_REPO="$W/r" STV_CACHE="$W/cache" STV_NO_EVIDENCE=1 STV_REPLAY_DIR="$W/replays" ./bin/check $p 2>&1); rc=$?
+        out=$(STV_REPO="$W/r" STV_CACHE="$W/cache" STV_SHOW_UND=$MX_VERBOSE STV_NO_EVIDENCE=1 STV_REPLAY_DIR="$W/replays" ./bin/check $p 2>&1); rc=$?
         res="$res $p:exit=$rc($(echo "$out" | grep -c '^VIOLATION')v,$(echo "$out" | grep -m1 'tier=' | sed 's/.*discharged, \([0-9]*\) undecided.*/\1/')u)"
+        if [ "$MX_VERBOSE" = 2 ]; then echo "$out" | grep '^undecided' | sed "s/^/    [$id $p] /"; fi
         if [ -n "$MX_VERBOSE" ] && [ $rc -ne 0 ]; then echo "$out" | grep -B7 '^VIOLATION\|ANALYSIS-BROKEN' | sed "s/^/    [$id $p] /"; fi
       else res="$res $p:unclaimed"; fi
     done
